@@ -7,13 +7,33 @@ Inductive ftype := FIXED | LLVAR | LLLVAR | FTOther.          (* field_type; FTO
 Inductive ptype := PTStr | PTInt | PTDec | PTDate.             (* field_python_type ("int"/"long" -> PTInt) *)
 Inductive proc := PNone | PPAN | PPANPREFIX | PICC | PPDS | PDE43.   (* field_processor *)
 
+(* the regex fragment of a DE43 splitting pattern (data only; the matcher is model/Regex.v) *)
+Inductive cls_item :=
+| CILit (c : N)                 (* a literal character *)
+| CIRange (lo hi : N)           (* a-z *)
+| CISpace (neg : bool)          (* \s / \S *)
+| CIDigit (neg : bool).         (* \d / \D *)
+Inductive cclass :=
+| CAny                          (* . *)
+| CSet (neg : bool) (items : list cls_item).   (* a literal, an escape class, or [...] / [^...] *)
+Inductive re :=
+| RChar (c : cclass) (mn : nat) (mx : option nat) (greedy : bool)   (* a single-character atom with its quantifier *)
+| RGroup (name : option str) (body : list re)                       (* (?P<name>...) / (...) / (?:...) *)
+| REnd (strict : bool)                                              (* \Z (strict) / $ *)
+| RStart.                                                           (* ^ / \A *)
+Definition regex := list re.
+Inductive de43cfg :=
+| D43None                       (* field_processor_config missing or empty *)
+| D43Re (p : regex)
+| D43Unsupported.               (* a pattern outside the fragment: decoding the element is Unmodelled *)
+
 Record fieldcfg := mkfc {
   f_type : ftype;
   f_len : option nat;          (* field_length (None: key missing) *)
   f_ptype : ptype;
   f_datefmt : str;             (* field_date_format, default "%y%m%d" *)
   f_proc : proc;
-  f_proccfg : bool             (* field_processor_config is present and truthy *)
+  f_de43 : de43cfg             (* field_processor_config, translated (used by the DE43 processor only) *)
 }.
 Definition cfgT := list (nat * fieldcfg).
 
